@@ -26,6 +26,7 @@ structure Pkt where
   srcLocal : Bool := false      -- addrtype --src-type LOCAL
   rpfFail : Bool := false       -- the reverse-path check (rpfilter --invert) fails
   dnat : Bool := false          -- conntrack status DNAT
+  icmpType : Nat := 0           -- ICMPv6 type (BPF-mode IPv6 FORWARD rules)
 deriving Repr, DecidableEq
 
 def lastIsPlus : List Char → Bool
@@ -60,6 +61,9 @@ inductive Crit where
   | srcLocal                                    -- `-m addrtype --src-type LOCAL`
   | rpfFailed                                   -- `-m rpfilter --invert --validmark`
   | notCtDNAT                                   -- `-m conntrack ! --ctstate DNAT`
+  | markNotSet (m : Nat)                        -- `-m mark ! --mark m/m`
+  | ctEstRel                                    -- `-m conntrack --ctstate ESTABLISHED,RELATED` (BPF-mode spelling)
+  | icmp6Type (t : Nat)                         -- `-m icmp6 --icmpv6-type t`
 deriving Repr, DecidableEq
 
 def Crit.holds (p : Pkt) : Crit → Bool
@@ -82,6 +86,9 @@ def Crit.holds (p : Pkt) : Crit → Bool
   | .srcLocal => p.srcLocal
   | .rpfFailed => p.rpfFail
   | .notCtDNAT => !p.dnat
+  | .markNotSet m => !(p.mark &&& m == m)
+  | .ctEstRel => p.ct == 1
+  | .icmp6Type t => p.icmpType == t
 
 inductive Action where
   | accept | drop | ret
@@ -90,10 +97,13 @@ inductive Action where
   | setMark (m : Nat)       -- `--jump MARK --set-mark m/m`
   | clearMark (m : Nat)     -- `--jump MARK --set-mark 0/m`
   | notrack
+  | rejectRst               -- `--jump REJECT --reject-with tcp-reset`: the packet does not pass
+  | setMarkMasked (m : Nat) -- `--jump MARK --set-mark m/m` built by SetMaskedMark (same kernel effect as setMark)
 deriving Repr, DecidableEq
 
 structure Rule where
   comment : Option String := none
+  moreComments : List String := []   -- further comment fragments (a Go rule's Comment is a list)
   crits : List Crit := []
   action : Action
 deriving Repr, DecidableEq
@@ -125,6 +135,8 @@ def runRulesWith (call : String → Pkt → Res) : List Rule → Pkt → Res
       | .setMark m => runRulesWith call rs { p with mark := p.mark ||| m }
       | .clearMark m => runRulesWith call rs { p with mark := clearBits p.mark m }
       | .notrack => runRulesWith call rs p
+      | .rejectRst => .drop
+      | .setMarkMasked m => runRulesWith call rs { p with mark := p.mark ||| m }
       | .jump c =>
         match call c p with
         | .fall p' => runRulesWith call rs p'
@@ -169,6 +181,9 @@ def Crit.render : Crit → String
   | .srcLocal => "-m addrtype --src-type LOCAL"
   | .rpfFailed => "-m rpfilter --invert --validmark"
   | .notCtDNAT => "-m conntrack ! --ctstate DNAT"
+  | .markNotSet m => s!"-m mark ! --mark {hex m}/{hex m}"
+  | .ctEstRel => "-m conntrack --ctstate ESTABLISHED,RELATED"
+  | .icmp6Type t => s!"-m icmp6 --icmpv6-type {t}"
 
 def Action.render : Action → String
   | .accept => "--jump ACCEPT"
@@ -179,10 +194,13 @@ def Action.render : Action → String
   | .setMark m => s!"--jump MARK --set-mark {hex m}/{hex m}"
   | .clearMark m => s!"--jump MARK --set-mark 0/{hex m}"
   | .notrack => "--jump NOTRACK"
+  | .rejectRst => "--jump REJECT --reject-with tcp-reset"
+  | .setMarkMasked m => s!"--jump MARK --set-mark {hex m}/{hex m}"
 
 def Rule.render (chain : String) (r : Rule) : String :=
   let parts := ["-A", chain] ++
     (match r.comment with | some c => [s!"-m comment --comment \"{c}\""] | none => []) ++
+    r.moreComments.map (fun c => s!"-m comment --comment \"{c}\"") ++
     r.crits.map Crit.render ++ [r.action.render]
   " ".intercalate parts
 
@@ -226,6 +244,9 @@ def Crit.renderNft (tp : String) : Crit → String
   | .srcLocal => "fib saddr type local"
   | .rpfFailed => "fib saddr . mark . iif oif 0"
   | .notCtDNAT => "ct status != dnat"
+  | .markNotSet m => s!"meta mark & {hex m} != {hex m}"
+  | .ctEstRel => "ct state established,related"
+  | .icmp6Type t => s!"icmpv6 type {t}"
 
 def Action.renderNft : Action → String
   | .accept => "counter accept"
@@ -236,11 +257,13 @@ def Action.renderNft : Action → String
   | .setMark m => s!"counter meta mark set mark or {hex m}"
   | .clearMark m => s!"counter meta mark set mark & {hex (0xffffffff - m)}"
   | .notrack => "counter notrack"
+  | .rejectRst => "counter reject with tcp reset"
+  | .setMarkMasked m => s!"counter meta mark set mark & {hex (0xffffffff - m)} ^ {hex m}"
 
 def Rule.renderNft (chain : String) (r : Rule) : String :=
   let tp := transportOf r.crits
   chain ++ ": " ++ " ".intercalate (r.crits.map (Crit.renderNft tp) ++ [r.action.renderNft]) ++
-    (match r.comment with | some c => " #" ++ c | none => "")
+    (match r.comment with | some c => " #" ++ " ".intercalate (c :: r.moreComments) | none => "")
 
 def renderChainNft (name : String) (rs : List Rule) : String :=
   if rs.isEmpty then name ++ " <empty>" else " ;; ".intercalate (rs.map (Rule.renderNft name))
